@@ -115,6 +115,16 @@ def gen_cases(tier, seed):
             yield {"second": None, "spec": spec + [{"p": "lsrc", "k": "l", "target": r.choice(["src", "@ROOT@/src"])}], "gitignore": gi, "forms": forms, "driver": driver, "use": r.random() < 0.9,
                    "fs": "ext4", "extra": ["-L"], "srcarg": r.choice(["lsrc", "lsrc", "lsrc/", "./lsrc"]), "w": r.choice([0, 1, 2, 4])}
             continue
+        r3 = random.Random(seed * 977 + i)
+        if second is None and gi is not None and r3.random() < 0.12:
+            # the copy goes to a place inside the source that the root file excludes with an anchored pattern (`/zz-out/`, last line), and
+            # the tree has an entry of the same name further down, which that pattern does not cover
+            dirs_ = [e["p"] for e in spec if e["k"] == "d" and e["p"] != "src"]
+            d_ = r3.choice(dirs_) if dirs_ else "src/keepdir"
+            spec = spec + ([] if dirs_ else [{"p": d_, "k": "d"}]) + [{"p": d_ + "/zz-out", "k": "d"}, {"p": d_ + "/zz-out/dump", "k": "f", "size": 9, "seed": 5, "segs": None}]
+            yield {"inside": True, "second": None, "spec": spec, "gitignore": gi.rstrip("\n") + "\n/zz-out/\n", "forms": forms, "driver": driver, "use": True, "fs": "ext4",
+                   "extra": [], "srcarg": r3.choice(["src", "src/", "./src", "@ROOT@/src"]), "w": r3.choice([0, 1, 2, 4])}
+            continue
         yield {"second": second, "spec": spec, "gitignore": gi, "forms": forms, "driver": driver, "use": r.random() < 0.85, "fs": "ext4",
                "extra": r.choice([[], [], [], ["--fsync"], ["--no-perms"], ["--no-progress"], ["--reflink", "never"], ["--backup", "auto"]]),
                "srcarg": r.choice(["src", "src", "src/", "./src", "@ROOT@/src"]), "w": r.choice([0, 1, 2, 4])}
@@ -166,7 +176,9 @@ def run_case(case):
         if two:
             os.mkdir(os.path.join(b(root), b"dst"))
         args = ["--driver", case["driver"], "-w", str(case.get("w", 2)), "-r"] + (["--gitignore"] if case["use"] else []) + case.get("extra", [])
-        args += [case.get("srcarg", "src")] + (["src2"] if two else []) + ["dst"]
+        args += [case.get("srcarg", "src")] + (["src2"] if two else []) + ["src/zz-out" if case.get("inside") else "dst"]
+        if case.get("inside"):
+            res["counters"]["destination-inside-the-source-runs"] = 1
         args = [a.replace("@ROOT@", root) for a in args]
         # the user's own git configuration must not speak: xcp runs with a HOME that holds global excludes naming entries of
         # this very tree (through ~/.config/git/ignore and through core.excludesFile), which only the root .gitignore may exclude
@@ -189,7 +201,7 @@ def run_case(case):
         for top, spec, gi in sources:
             expected, pre, ignored = expected_all[top], pre_all[top], ignored_all[top]
             rels = sorted(pre)
-            dpath = os.path.join(b(root), b"dst", b(top)) if two else os.path.join(b(root), b"dst")
+            dpath = os.path.join(b(root), b"dst", b(top)) if two else os.path.join(b(root), b"src/zz-out" if case.get("inside") else b"dst")
             post = tree.snapshot(dpath, content=False, include_root=False)
             got = set(post)
             tag = "driver=%s source=%s%s gitignore=%r" % (case["driver"], top, " (second of two)" if two and top == "src2" else "", gi)
